@@ -569,7 +569,24 @@ func (o *Ownership) reflectTaint(f *ssa.Function) map[ssa.Value]int {
 
 // siteKey is the stable key of an element-write site.
 func (w elemWrite) Key() string {
-	return fmt.Sprintf("fn:%s|%s|%s", FnName(originOf(w.Fn)), w.How, w.Root)
+	// rename-stable: unexported functions by call-structure role, parameters by index
+	root := w.Root
+	if strings.HasPrefix(root, "param:") && w.RootParam >= 0 {
+		rest := ""
+		if i := strings.Index(root, "."); i >= 0 {
+			rest = root[i:]
+		}
+		root = fmt.Sprintf("param#%d%s", w.RootParam, rest)
+	}
+	how := w.How
+	fnName := FnName(originOf(w.Fn))
+	if curProg != nil {
+		fnName = curProg.StableName(w.Fn)
+		if w.Callee != nil && strings.HasPrefix(fnPkgPath(w.Callee), repoMod) {
+			how = strings.Replace(how, FnName(originOf(w.Callee)), curProg.StableName(w.Callee), 1)
+		}
+	}
+	return fmt.Sprintf("fn:%s|%s|%s", fnName, how, root)
 }
 
 // StoreOwnedWrites returns the bottom sites (a store into an element, a pointer
